@@ -39,6 +39,7 @@ type b64Pair struct {
 	chars []*Term
 	bytes []*Term
 	flt   *Term
+	rec   []*Term
 }
 
 type nondetVar struct {
